@@ -1,11 +1,18 @@
 #include "lib.hpp"
 
-bool lib_load_key(Ctx &ctx, const std::string &jwk, LoadedKey &lk)
+bool lib_load_key(Ctx &ctx, const std::string &jwk, LoadedKey &lk, int64_t fail_at, bool fail_from, bool *fired, bool *tainted)
 {
 	lk.jwk = jwk;
 	{
-		Armed a;
+		uint64_t p0 = g_alloc.fired_in_parse, d0 = g_alloc.fired_in_dump;
+		Armed a(fail_at, fail_from);
 		lk.set = jwks_create(jwk.c_str());
+		if (fired)
+			*fired = a.fired() > 0;
+		if (tainted)
+			*tainted = g_alloc.fired_in_parse > p0 || g_alloc.fired_in_dump > d0;
+		if (a.fired())
+			ctx.count("fault:alloc_fail_in_key_import", a.fired());
 	}
 	if (!lk.set)
 		return false;
@@ -61,10 +68,12 @@ VerifyOut lib_verify(Ctx &ctx, jwt_checker_t *c, const char *token, bool c14, in
 {
 	VerifyOut o;
 	{
+		uint64_t p0 = g_alloc.fired_in_parse, d0 = g_alloc.fired_in_dump;
 		Armed a(fail_at, fail_from, fail_at2);
 		o.ret = jwt_checker_verify(c, token);
 		o.alloc_reqs = a.reqs();
 		o.faults_fired = a.fired();
+		o.tainted = g_alloc.fired_in_parse > p0 || g_alloc.fired_in_dump > d0;
 	}
 	o.err = jwt_checker_error(c);
 	const char *m = jwt_checker_error_msg(c);
@@ -72,7 +81,8 @@ VerifyOut lib_verify(Ctx &ctx, jwt_checker_t *c, const char *token, bool c14, in
 	ctx.count("lib:verify_calls");
 	if (o.faults_fired)
 		ctx.count("fault:alloc_fail_in_verify", o.faults_fired);
-	if (c14 && c && !o.faults_fired) {
+	if (c14 && c) {
+		// (asserted under injected allocation failures too: flag and message live in the checker itself)
 		// C14: verify returns non-zero exactly when the flag is set afterwards, and then the
 		// message is non-empty; after a success the flag is clear and the message empty.
 		std::string cls = msg_class(o.msg);
@@ -103,10 +113,12 @@ GenerateOut lib_generate(Ctx &ctx, jwt_builder_t *b, bool c14, int64_t fail_at, 
 	GenerateOut o;
 	char *t;
 	{
+		uint64_t p0 = g_alloc.fired_in_parse, d0 = g_alloc.fired_in_dump;
 		Armed a(fail_at, fail_from, fail_at2);
 		t = jwt_builder_generate(b);
 		o.alloc_reqs = a.reqs();
 		o.faults_fired = a.fired();
+		o.tainted = g_alloc.fired_in_parse > p0 || g_alloc.fired_in_dump > d0;
 	}
 	o.ok = t != NULL;
 	if (t) {
@@ -119,7 +131,7 @@ GenerateOut lib_generate(Ctx &ctx, jwt_builder_t *b, bool c14, int64_t fail_at, 
 	ctx.count("lib:generate_calls");
 	if (o.faults_fired)
 		ctx.count("fault:alloc_fail_in_generate", o.faults_fired);
-	if (c14 && b && !o.faults_fired) {
+	if (c14 && b) {
 		std::string cls = msg_class(o.msg);
 		if (!o.ok) {
 			ctx.count("c14:failure_cause:gen:" + (cls.empty() ? std::string("(empty)") : cls));
